@@ -118,7 +118,10 @@ def extract(prog, lang):
         g.transformer = h.ci
         lv = h.fields.get('__lang__')
         g.language = lv.name if isinstance(lv, MRef) else repr(lv)
-        g.transformer_fields = dict(h.fields)
+        # containers of the transformer become immutable snapshots: the
+        # callbacks are interpreted later, on other paths
+        g.transformer_fields = {k: I.snapshot_deep(v, path)
+                                for k, v in h.fields.items()}
     else:
         raise Inconclusive('E5', 'transformer of %s.Parser is %r' % (lang,
                                                                      tr),
